@@ -30,6 +30,17 @@ def pack_cases(tier, seed):
                                               member=[rng.randrange(0, 200) for _ in range(rng.randrange(0, 8))],
                                               user=[rng.choice([1, 2, 3, 17, 80, 300]) for _ in range(rng.randrange(0, 40))],
                                               fillUser=rng.random() < 0.5))
+    # the padded format (encryption version 0): the ciphertext length depends on the plaintext length modulo the cipher
+    # block, and the budget has to allow for a whole block of padding - 16 consecutive packet sizes, filled to the byte,
+    # meet every alignment (also with version 1, which does not pad)
+    for path in ("gossip", "piggy"):
+        for buf in range(1400, 1416) if tier == "quick" else list(range(1400, 1416)) + list(range(692, 708)):
+            for lab in (0, 10):
+                for enc in ("v0", "v1"):
+                    for crc in (False, True):
+                        base = dict(path=path, buf=buf, labelLen=lab, enc=enc, vout=True, vin=True, crc=crc, comp=False)
+                        cases.append(dict(base, member=[], user=[], fillUser=True))
+                        cases.append(dict(base, member=[10, 40], user=[], fillUser=True))
     return cases
 
 
